@@ -62,7 +62,10 @@ func vPlanKeys(plan map[string]int, n int) bool {
 
 func vAuto(n, maxNeed int) {
 	in := vInfos(n)
-	need := vInt("need", 1, maxNeed)
+	// the placement loop runs `need` times: need <= maxNeed, or any need that
+	// exceeds the offered total (refused before the loop)
+	need := vInt("need", 1, math.MaxInt)
+	vAssume(vOr(need <= maxNeed, in.total < need))
 	limit := vInt("limit", 0, vMaxCount)
 	plan, err := Deploy(context.Background(), Auto, need, limit, in.infos, in.total)
 
@@ -107,7 +110,8 @@ func VerifAuto4() { vAuto(4, 4) }
 
 func vGlobal(n, maxNeed int) {
 	in := vInfos(n)
-	need := vInt("need", 1, maxNeed)
+	need := vInt("need", 1, math.MaxInt)
+	vAssume(vOr(need <= maxNeed, in.total < need))
 	limit := vInt("limit", 0, vMaxCount)
 	plan, err := Deploy(context.Background(), Global, need, limit, in.infos, in.total)
 	vCover("global-plan", err == nil)
@@ -229,7 +233,9 @@ func VerifEach5() { vEach(5) }
 
 func vFill(n int) {
 	in := vInfos(n)
-	need := vInt("need", 1, math.MaxInt)
+	// need is the per-node target level; levels beyond 2^32 instances are
+	// outside the claim (the strategy's running total would wrap)
+	need := vInt("need", 1, 1<<32)
 	limit := vInt("limit", 0, vMaxCount)
 	plan, err := Deploy(context.Background(), Fill, need, limit, in.infos, in.total)
 	lim := vIte(limit == 0, n, limit)
